@@ -691,12 +691,13 @@ func (c *Conn) reconnect(ctx context.Context) error {
 	var res *wire.ClientConn
 	var resErr error
 	retry.Do(func() (end bool) {
+		c.logger.Infof(ctx, "Try reconnecting...")
 		if c.state.Is(connStatusClosed) {
-			// Close was called while waiting for the next attempt: do not dial again.
+			// Close was called while waiting for the next attempt (or while the logger above was
+			// busy): do not dial again. Checked last thing before the dial.
 			resErr = errors.ErrConnectionClosed
 			return true
 		}
-		c.logger.Infof(ctx, "Try reconnecting...")
 
 		res, resErr = c.Config.connectWire()
 		if resErr != nil {
